@@ -174,7 +174,36 @@ func init() {
 		"runtime.Gosched": hNop,
 		"errors.New":      func(m *Machine, fr *frame, fn *ssa.Function, a []Value) Value { return m.makeError(a[0]) },
 		// ---- strconv / strings / regexp ----
-		"strconv.Itoa":       hItoa,
+		"strconv.Itoa": hItoa,
+		// decimal renderings of symbolic integers are opaque numeral terms (the real formatBits divides by constants in a
+		// loop: hopeless symbolically); other bases and concrete values go to the host
+		"strconv.FormatInt": func(m *Machine, fr *frame, fn *ssa.Function, a []Value) Value {
+			v, base := a[0].(T), m.concretize(a[1].(T), true)
+			if v.IsConst() {
+				return strconv.FormatInt(v.Int64(), int(base))
+			}
+			if base != 10 {
+				m.end(StEngineError, "unmodelled: strconv.FormatInt of a symbolic value in base %d", base)
+			}
+			return m.C.App("numstr", smt.Str, v)
+		},
+		"strconv.FormatUint": func(m *Machine, fr *frame, fn *ssa.Function, a []Value) Value {
+			v, base := a[0].(T), m.concretize(a[1].(T), true)
+			if v.IsConst() {
+				return strconv.FormatUint(v.Val, int(base))
+			}
+			if base != 10 {
+				m.end(StEngineError, "unmodelled: strconv.FormatUint of a symbolic value in base %d", base)
+			}
+			return m.C.App("unumstr", smt.Str, v)
+		},
+		"strconv.FormatBool": func(m *Machine, fr *frame, fn *ssa.Function, a []Value) Value {
+			b := a[0].(T)
+			if b.IsConst() {
+				return strconv.FormatBool(b.Val != 0)
+			}
+			return m.C.Ite(b, m.C.StrC("true"), m.C.StrC("false"))
+		},
 		"strconv.Atoi":       hAtoi,
 		"strconv.ParseInt":   hParseInt,
 		"strconv.ParseUint":  hParseUint,
@@ -253,6 +282,66 @@ func init() {
 		},
 		"strings.TrimSpace": func(m *Machine, fr *frame, fn *ssa.Function, a []Value) Value {
 			return strings.TrimSpace(m.concStr(a[0]))
+		},
+		// more of package strings, evaluated by the host on concrete strings (concStr narrows a numeral term first)
+		"strings.IndexByte": func(m *Machine, fr *frame, fn *ssa.Function, a []Value) Value {
+			return m.C.BVC(uint64(int64(strings.IndexByte(m.concStr(a[0]), byte(m.concretize(a[1].(T), false))))), 64)
+		},
+		"strings.LastIndexByte": func(m *Machine, fr *frame, fn *ssa.Function, a []Value) Value {
+			return m.C.BVC(uint64(int64(strings.LastIndexByte(m.concStr(a[0]), byte(m.concretize(a[1].(T), false))))), 64)
+		},
+		"strings.IndexRune": func(m *Machine, fr *frame, fn *ssa.Function, a []Value) Value {
+			return m.C.BVC(uint64(int64(strings.IndexRune(m.concStr(a[0]), rune(m.concretize(a[1].(T), true))))), 64)
+		},
+		"strings.LastIndex": func(m *Machine, fr *frame, fn *ssa.Function, a []Value) Value {
+			return m.C.BVC(uint64(int64(strings.LastIndex(m.concStr(a[0]), m.concStr(a[1])))), 64)
+		},
+		"strings.IndexAny": func(m *Machine, fr *frame, fn *ssa.Function, a []Value) Value {
+			return m.C.BVC(uint64(int64(strings.IndexAny(m.concStr(a[0]), m.concStr(a[1])))), 64)
+		},
+		"strings.ContainsAny": func(m *Machine, fr *frame, fn *ssa.Function, a []Value) Value {
+			return m.C.BoolC(strings.ContainsAny(m.concStr(a[0]), m.concStr(a[1])))
+		},
+		"strings.ContainsRune": func(m *Machine, fr *frame, fn *ssa.Function, a []Value) Value {
+			return m.C.BoolC(strings.ContainsRune(m.concStr(a[0]), rune(m.concretize(a[1].(T), true))))
+		},
+		"strings.Count": func(m *Machine, fr *frame, fn *ssa.Function, a []Value) Value {
+			return m.C.BVC(uint64(int64(strings.Count(m.concStr(a[0]), m.concStr(a[1])))), 64)
+		},
+		"strings.TrimPrefix": func(m *Machine, fr *frame, fn *ssa.Function, a []Value) Value {
+			return strings.TrimPrefix(m.concStr(a[0]), m.concStr(a[1]))
+		},
+		"strings.TrimSuffix": func(m *Machine, fr *frame, fn *ssa.Function, a []Value) Value {
+			return strings.TrimSuffix(m.concStr(a[0]), m.concStr(a[1]))
+		},
+		"strings.Trim": func(m *Machine, fr *frame, fn *ssa.Function, a []Value) Value {
+			return strings.Trim(m.concStr(a[0]), m.concStr(a[1]))
+		},
+		"strings.Repeat": func(m *Machine, fr *frame, fn *ssa.Function, a []Value) Value {
+			return strings.Repeat(m.concStr(a[0]), int(m.concretize(a[1].(T), true)))
+		},
+		"strings.EqualFold": func(m *Machine, fr *frame, fn *ssa.Function, a []Value) Value {
+			return m.C.BoolC(strings.EqualFold(m.concStr(a[0]), m.concStr(a[1])))
+		},
+		// strings.Builder: the accumulated text is the builder struct's model state (a concrete string or a String term)
+		"(*strings.Builder).Grow":  func(m *Machine, fr *frame, fn *ssa.Function, a []Value) Value { return nil },
+		"(*strings.Builder).Reset": func(m *Machine, fr *frame, fn *ssa.Function, a []Value) Value { m.builderSet(a[0], ""); return nil },
+		"(*strings.Builder).Len": func(m *Machine, fr *frame, fn *ssa.Function, a []Value) Value {
+			return m.C.BVC(uint64(len(m.concStr(m.builderGet(a[0])))), 64)
+		},
+		"(*strings.Builder).String": func(m *Machine, fr *frame, fn *ssa.Function, a []Value) Value { return m.builderGet(a[0]) },
+		"(*strings.Builder).WriteString": func(m *Machine, fr *frame, fn *ssa.Function, a []Value) Value {
+			m.builderSet(a[0], m.strConcat(m.builderGet(a[0]), a[1]))
+			return Tuple{m.C.BVC(uint64(len(m.concStr(a[1]))), 64), Iface{}}
+		},
+		"(*strings.Builder).WriteByte": func(m *Machine, fr *frame, fn *ssa.Function, a []Value) Value {
+			m.builderSet(a[0], m.strConcat(m.builderGet(a[0]), string([]byte{byte(m.concretize(a[1].(T), false))})))
+			return Iface{}
+		},
+		"(*strings.Builder).WriteRune": func(m *Machine, fr *frame, fn *ssa.Function, a []Value) Value {
+			r := string(rune(m.concretize(a[1].(T), true)))
+			m.builderSet(a[0], m.strConcat(m.builderGet(a[0]), r))
+			return Tuple{m.C.BVC(uint64(len(r)), 64), Iface{}}
 		},
 		// ---- sort ----
 		"sort.SliceStable":   hSortSliceStable,
@@ -1578,6 +1667,37 @@ func hSortSliceIsSorted(m *Machine, fr *frame, fn *ssa.Function, a []Value) Valu
 		}
 	}
 	return m.C.True()
+}
+
+// strings.Builder model state, keyed by the builder's address
+func (m *Machine) builderGet(p Value) Value {
+	if bp, ok := p.(*Value); ok && bp != nil {
+		if v, ok := m.builders[bp]; ok {
+			return v
+		}
+	}
+	return ""
+}
+
+func (m *Machine) builderSet(p Value, v Value) {
+	bp, ok := p.(*Value)
+	if !ok || bp == nil {
+		m.engineErr("strings.Builder method on a nil receiver")
+	}
+	if m.builders == nil {
+		m.builders = map[*Value]Value{}
+	}
+	m.builders[bp] = v
+}
+
+// strConcat: concatenation of two string values (concrete when both are)
+func (m *Machine) strConcat(a, b Value) Value {
+	as, ok1 := a.(string)
+	bs, ok2 := b.(string)
+	if ok1 && ok2 {
+		return as + bs
+	}
+	return m.C.StrConcat(m.strTerm(a), m.strTerm(b))
 }
 
 var _ = math.Abs
